@@ -160,4 +160,69 @@ def affine_kinds(repo: Repo) -> RuleRun:
 
 affine_kinds.rule_id = "C08.AFFINE-KINDS"
 
-RULES = [trig_domain, arg_pairing, affine_kinds]
+EVEN = {"abs", "fabs", "cos", "cosh", "square"}
+
+
+def sign_flows(repo: Repo) -> RuleRun:
+    """A negative sector angle describes the arc on the other side of the chord. That needs the SIGN of `angle` to reach
+    the computed centre: if every use of the parameter (outside the range check that only raises) sits under an even
+    function - abs(), cos(), a square - then arc_from_theta(angle) == arc_from_theta(-angle) and clockwise revolves get the
+    arc of the counter-clockwise one (parity as an information-flow fact, not trigonometry)."""
+    from ..model import parent
+
+    r = RuleRun(PROP, "C08.SIGN-FLOWS", floor=1, what="the sign of the sector angle reaches the arc centre (not every use of `angle` is under an even function)")
+    fn = repo.func("items.edges.arcs.angle.arc_from_theta")
+    r.require("angle" in fn.params, "arc_from_theta no longer has an `angle` parameter")
+    uses = []
+    aliases = {"angle"}
+    for _ in range(3):
+        for n in ast.walk(fn.node):
+            if isinstance(n, ast.Assign) and len(n.targets) == 1 and isinstance(n.targets[0], ast.Name):
+                if any(isinstance(x, ast.Name) and x.id in aliases for x in ast.walk(n.value)) and not _under_even(n.value, aliases):
+                    aliases.add(n.targets[0].id)
+    odd_uses = 0
+    for n in ast.walk(fn.node):
+        if isinstance(n, ast.Name) and n.id == "angle" and isinstance(n.ctx, ast.Load):
+            # skip the validation guard: an `if` whose body only raises
+            p = n
+            in_guard = False
+            even = False
+            while p is not None and p is not fn.node:
+                q = parent(p)
+                if isinstance(q, ast.If) and p is q.test and all(isinstance(s_, ast.Raise) for s_ in q.body):
+                    in_guard = True
+                if isinstance(q, (ast.Raise, ast.Assert)):
+                    in_guard = True  # diagnostics only
+                if isinstance(q, ast.Call) and p in q.args and (attr_chain(q.func) or "").split(".")[-1] in EVEN:
+                    even = True
+                if isinstance(q, ast.BinOp) and isinstance(q.op, ast.Pow) and p is q.left and isinstance(q.right, ast.Constant) and q.right.value in (2, 4):
+                    even = True
+                p = q
+            if in_guard:
+                continue
+            uses.append((n, even))
+            if not even:
+                odd_uses += 1
+    r.require(bool(uses), "arc_from_theta does not use its angle outside the range check")
+    r.check(
+        odd_uses > 0,
+        fn,
+        f"{odd_uses} use(s) of `angle` keep its sign",
+        f"every use of `angle` in arc_from_theta is under an even function ({', '.join(sorted({ast.unparse(parent(u[0]))[:40] for u in uses}))}): the result cannot depend on the sign of the sector "
+        "angle, so an arc given with a negative angle (a clockwise revolve) gets its centre on the wrong side of the chord",
+        uses[0][0],
+        key="angle-sign",
+    )
+    return r
+
+
+def _under_even(expr: ast.expr, names) -> bool:
+    for c in ast.walk(expr):
+        if isinstance(c, ast.Call) and (attr_chain(c.func) or "").split(".")[-1] in EVEN and any(isinstance(x, ast.Name) and x.id in names for a in c.args for x in ast.walk(a)):
+            return True
+    return False
+
+
+sign_flows.rule_id = "C08.SIGN-FLOWS"
+
+RULES = [trig_domain, arg_pairing, affine_kinds, sign_flows]
